@@ -421,6 +421,163 @@ def strategy_body(n, strategy, bits):
     return None
 
 
+def main_body(n, strategy, bits):
+    """A whole run of cli.ddsmt_main: every way any ddsmt module opens,
+    replaces or removes the output path (or a sibling of it) goes to the fake
+    file system - builtins.open and the os functions are intercepted for
+    these paths only; input file, command and temporary directory are real."""
+    import builtins
+    import logging
+    import os
+    import shutil
+    import tempfile
+    from ddsmt import (checker, cli, nodeio, options, progress,
+                       strategy_ddmin, strategy_hierarchical)
+    from vlib.stubs.strat import Decider, FakeMP, tokens
+    from harness import strat_common as SC
+    work = tempfile.mkdtemp(prefix='verif-c06-')
+    out = os.path.join(work, 'out.smt2')
+    d = Decider(10 ** 6, replay=bits)
+    accepted_texts = []
+    state = {'bad': None, 'writing': False}
+
+    def observer(fs):
+        if state['bad'] or out not in fs.files or not accepted_texts:
+            return
+        allowed = accepted_texts[-2:] if state['writing'] \
+            else accepted_texts[-1:]
+        if len(accepted_texts) == 1 and state['writing']:
+            return
+        if fs.files[out] not in allowed:
+            state['bad'] = (f'step {fs.step}: a reader sees '
+                            f'{fs.files[out]!r} although the last accepted '
+                            f'input is {accepted_texts[-1]!r}')
+
+    fs = FakeFS(n, observer)
+    fos = FakeOS(fs)
+    real_open = builtins.open
+    real = {k: getattr(os, k) for k in ('replace', 'rename', 'remove',
+                                        'unlink')}
+    real_getsize = os.path.getsize
+
+    def mine(path):
+        return isinstance(path, str) and path.startswith(out)
+
+    def open_(path, mode='r', *a, **k):
+        if mine(path):
+            return fs.open(path, mode)
+        return real_open(path, mode, *a, **k)
+
+    def two(name):
+        def f(a, b, *r, **k):
+            if mine(a) or mine(b):
+                return getattr(fos, name)(a, b)
+            return real[name](a, b, *r, **k)
+        return f
+
+    def one(name):
+        def f(a, *r, **k):
+            if mine(a):
+                return getattr(fos, name)(a)
+            return real[name](a, *r, **k)
+        return f
+
+    def getsize(path):
+        if mine(path):
+            return len(fs.files[path])
+        return real_getsize(path)
+
+    true_write = SC_REAL_WRITE[0]
+
+    def write(filename, exprs):
+        accepted_texts.append(nodeio.write_smtlib_to_str(exprs))
+        state['writing'] = True
+        try:
+            true_write(filename, exprs)
+        finally:
+            state['writing'] = False
+        observer(fs)
+
+    saved = []
+
+    def patch(mod, name, val):
+        saved.append((mod, name, getattr(mod, name)))
+        setattr(mod, name, val)
+
+    try:
+        infile = os.path.join(work, 'in.smt2')
+        cmd = os.path.join(work, 'solver')
+        with real_open(infile, 'w') as f:
+            f.write(SC.SCRIPTS['a'])
+        with real_open(cmd, 'w') as f:
+            f.write('#!/bin/sh\n')
+        os.chmod(cmd, 0o755)
+        ns = SC._namespace(strategy, 1, 'core', out)
+        ns.infile = infile
+        ns.cmd = [cmd]
+        ns.cmd_cc = None
+        ns.timeout = None
+        orig = tokens(list(nodeio.parse_smtlib(SC.SCRIPTS['a'])))
+        oracle = SC.RequiredTokensOracle(d, SC.KEYS['a'], orig)
+
+        def execute(xcmd, filename, timeout):
+            t = tokens(list(nodeio.parse_smtlib(real_open(filename).read())))
+            v = oracle.verdict(t)
+            return checker.RunInfo(0 if v else 1, '', '', 0.01)
+
+        mp = FakeMP(d, 4)
+        patch(checker, 'execute', execute)
+        patch(nodeio, 'write_smtlib_to_file', write)
+        patch(strategy_ddmin, 'multiprocessing', mp)
+        patch(strategy_hierarchical, 'multiprocessing', mp)
+        patch(progress, 'start', lambda *a: None)
+        patch(progress, 'update', lambda *a: None)
+        patch(progress, 'finish', lambda *a: None)
+        if not hasattr(logging, 'chat'):
+            setattr(options, '__PARSED_ARGS', ns)
+            cli.setup_logging()
+        patch(cli, 'setup_logging', lambda: None)
+        logging.getLogger().setLevel(logging.CRITICAL)
+        patch(builtins, 'open', open_)
+        patch(os, 'replace', two('replace'))
+        patch(os, 'rename', two('rename'))
+        patch(os, 'remove', one('remove'))
+        patch(os, 'unlink', one('unlink'))
+        patch(os.path, 'getsize', getsize)
+        try:
+            cli.ddsmt_main()
+        except KeyboardInterrupt:
+            pass
+        except SystemExit:
+            pass
+    finally:
+        for mod, name, val in reversed(saved):
+            setattr(mod, name, val)
+        shutil.rmtree(work, ignore_errors=True)
+    if state['bad']:
+        return state['bad'].replace(work, '<dir>')
+    if out in fs.files and accepted_texts:
+        if not (len(accepted_texts) == 1 and state['writing']):
+            if fs.files[out] not in accepted_texts[-2:]:
+                return (f'at the end / after an interrupt before step {n} '
+                        f'the output file holds {fs.files[out]!r}')
+    bad = [p for p in fs.opened_w if not p.startswith(out)]
+    if bad:
+        return f'opened for writing: {bad}'
+    return None
+
+
+def make_main(strategy, bits):
+    def h(n: int):
+        from crosshair.tracers import NoTracing
+        assume(0 <= n <= 400)
+        with NoTracing():
+            r = main_body(n, strategy, bits)
+        if r:
+            raise Violation(r)
+    return h
+
+
 SC_REAL_WRITE = [None]
 
 
@@ -457,6 +614,11 @@ def partitions(tier):
                           'fn': make_strategy(st, bits), 'setup': _setup,
                           'budget_s': 160,
                           'bounds': {'strategy': st, 'oracle_bits': bits}})
+    for st in ('hierarchical', 'ddmin', 'hybrid'):
+        parts.append({'name': f'main_{st}',
+                      'fn': make_main(st, [1, 0, 1, 1, 0, 1]),
+                      'setup': _setup, 'budget_s': 160,
+                      'bounds': {'entry': 'cli.ddsmt_main', 'strategy': st}})
     for k, bits in enumerate(PAR_BITS):
         parts.append({'name': f'par_{k}', 'fn': make_par(list(bits)),
                       'setup': _setup, 'budget_s': 160,
@@ -560,6 +722,8 @@ def replay(part, cex):
             return r['exc']['msg'] if r['exc'] else None
         if part == 'directbuf':
             return direct_body(cex['n'], cex['fmt'], True)
+        if part.startswith('main_'):
+            return main_body(cex['n'], part[5:], [1, 0, 1, 1, 0, 1])
         st, k = part.split('_')
         bits = ([0, 0, 1, 0, 0, 0], [1, 0, 0, 0, 0, 1])[int(k)]
         r = strategy_body(cex['n'], st, bits)
